@@ -195,9 +195,31 @@ def strip_lean_comments(src):
     return ''.join(out)
 
 
-def forbidden_tokens():
+def import_closure(roots):
+    """files of this project reachable through `import` lines from the given module names"""
+    seen, todo = {}, list(roots)
+    while todo:
+        m = todo.pop()
+        if m in seen:
+            continue
+        f = LEAN / (m.replace('.', '/') + '.lean')
+        if not f.exists():
+            continue
+        seen[m] = f
+        for mm in re.findall(r'^\s*(?:public\s+)?import\s+([A-Za-z0-9_.]+)', f.read_text(), re.M):
+            if mm.startswith(('PyTough.', 'Drv.')):
+                todo.append(mm)
+    return list(seen.values())
+
+
+def forbidden_tokens(roots=None):
+    """forbidden tokens in the files the property depends on (comments and strings stripped)"""
     hits = []
-    for f in list((LEAN / 'PyTough').rglob('*.lean')) + list((LEAN / 'Drv').rglob('*.lean')):
+    if roots:
+        files = import_closure(roots)
+    else:
+        files = list((LEAN / 'PyTough').rglob('*.lean')) + list((LEAN / 'Drv').rglob('*.lean'))
+    for f in files:
         src = strip_lean_comments(f.read_text())
         # string literals may legitimately mention words; drop them
         src = re.sub(r'"(\\.|[^"\\])*"', '""', src)
